@@ -10,6 +10,7 @@ import (
 	"fmt"
 	"io/ioutil"
 	"os"
+	"sort"
 	"strconv"
 	"strings"
 	"sync"
@@ -43,6 +44,7 @@ type verifC18Stub struct {
 	once2    sync.Once
 	active   int32
 	fwdSeen  atomic.Value
+	spin     time.Duration // busy-wait after the release (microsecond staggers of simultaneous answers)
 }
 
 func verifC18NewStub() *verifC18Stub {
@@ -65,6 +67,10 @@ func (s *verifC18Stub) CollectionGet(ctx context.Context, opts arvados.GetOption
 	case <-s.release:
 	case <-ctx.Done():
 		return arvados.Collection{}, ctx.Err()
+	}
+	if s.spin > 0 {
+		for t0 := time.Now(); time.Since(t0) < s.spin; {
+		}
 	}
 	if s.kind == 'M' {
 		return s.coll, nil
@@ -166,7 +172,49 @@ func verifC18Get(f []string) string {
 		return "bad-op"
 	}
 	conn := &Conn{cluster: &arvados.Cluster{ClusterID: cid}, remotes: map[string]backend{}}
-	return verifC18Step(conn, f[2:7])
+	return verifC18Step(conn, f[2:7], -1)
+}
+
+// verifC18GetRace: f = getrace cid req rounds remotes. The local cluster answers 404, the request is
+// not forwarded, and all remotes that answer at all do so at the same moment: their stubs wait on
+// one gate, and in round k one of them (k mod n) is delayed by a busy-wait of (k/n mod 50) µs, so
+// that the closures of CollectionGet meet in as many interleavings as the scheduler offers. Every
+// round uses a fresh Conn. Result: the distinct results, sorted, joined by " | ".
+func verifC18GetRace(f []string) string {
+	cid, err := verifC18Unhex(f[1])
+	rounds, err2 := strconv.Atoi(f[3])
+	if err != nil || err2 != nil || rounds < 1 || f[4] == "-" {
+		return "bad-op"
+	}
+	var live []string
+	for _, ent := range strings.Split(f[4], ";") {
+		kv := strings.SplitN(ent, "=", 2)
+		if len(kv) != 2 {
+			return "bad-op"
+		}
+		if kv[1] != "H" {
+			live = append(live, kv[0])
+		}
+	}
+	order := "-"
+	if len(live) > 0 {
+		order = strings.Join(live, ",")
+	}
+	seen := map[string]bool{}
+	for k := 0; k < rounds; k++ {
+		conn := &Conn{cluster: &arvados.Cluster{ClusterID: cid}, remotes: map[string]backend{}}
+		r := verifC18Step(conn, []string{f[2], "-", "E:404", f[4], order}, k)
+		if r == "bad-op" {
+			return "bad-op"
+		}
+		seen[r] = true
+	}
+	var outs []string
+	for r := range seen {
+		outs = append(outs, r)
+	}
+	sort.Strings(outs)
+	return strings.Join(outs, " | ")
 }
 
 // verifC18GetSeq runs a sequence of requests through ONE Conn (the controller keeps a single
@@ -180,7 +228,7 @@ func verifC18GetSeq(f []string) string {
 	conn := &Conn{cluster: &arvados.Cluster{ClusterID: cid}, remotes: map[string]backend{}}
 	var outs []string
 	for i := 0; i < n; i++ {
-		r := verifC18Step(conn, f[3+5*i:8+5*i])
+		r := verifC18Step(conn, f[3+5*i:8+5*i], -1)
 		if r == "bad-op" {
 			return "bad-op"
 		}
@@ -190,8 +238,10 @@ func verifC18GetSeq(f []string) string {
 }
 
 // verifC18Step: f = req, fwd, local answer, remotes, order. The Conn's backends are replaced by
-// fresh scripted stubs under the same ids; everything else of the Conn is kept.
-func verifC18Step(conn *Conn, f []string) string {
+// fresh scripted stubs under the same ids; everything else of the Conn is kept. race < 0: the
+// remotes' answers are released one at a time in the scripted order; race = k >= 0: all remotes in
+// `order` are released together (round k of verifC18GetRace).
+func verifC18Step(conn *Conn, f []string, race int) string {
 	req, e2 := verifC18Unhex(f[0])
 	fwd, e3 := verifC18Unhex(f[1])
 	local, e4 := verifC18ParseAnswer(f[2])
@@ -226,6 +276,15 @@ func verifC18Step(conn *Conn, f []string) string {
 		for _, id := range order {
 			if stubs[id] == nil {
 				return "bad-op"
+			}
+		}
+	}
+	gate := make(chan struct{})
+	if race >= 0 {
+		for i, id := range order {
+			stubs[id].release = gate
+			if i == race%len(order) {
+				stubs[id].spin = time.Duration((race/len(order))%50) * time.Microsecond
 			}
 		}
 	}
@@ -303,7 +362,28 @@ func verifC18Step(conn *Conn, f []string) string {
 		verifC18Wait(func() bool {
 			return done() || allRemotesCalled() || (local.kind == 'H' && verifC18Closed(local.called))
 		}, 20*time.Second)
-		if !done() && allRemotesCalled() {
+		if !done() && allRemotesCalled() && race >= 0 && len(order) > 0 {
+			nM := int32(0)
+			for _, id := range order {
+				if stubs[id].kind == 'M' {
+					nM++
+				}
+			}
+			close(gate)
+			// digested: the call finished, or every stub returned and every collection
+			// answered was refused with a warning
+			verifC18Wait(func() bool {
+				if done() {
+					return true
+				}
+				for _, id := range order {
+					if !verifC18Closed(stubs[id].returned) {
+						return false
+					}
+				}
+				return atomic.LoadInt32(&hook.warns) >= nM
+			}, 15*time.Second)
+		} else if !done() && allRemotesCalled() {
 			// release the remotes' answers one at a time; after each, wait until the
 			// controller has digested it (call finished, or the mismatch warning was
 			// logged, or -- for an error answer -- the stub has returned)
@@ -402,6 +482,8 @@ func verifC18Case(line string) (out string) {
 		return verifC18Get(f)
 	case f[0] == "getseq" && len(f) >= 8:
 		return verifC18GetSeq(f)
+	case f[0] == "getrace" && len(f) == 5:
+		return verifC18GetRace(f)
 	}
 	return "bad-op"
 }
